@@ -32,7 +32,7 @@ def make_history(g, sc, rounds, allow_faults=True, allow_interrupt=True, allow_e
                 add(s_, kind="change", desc=desc)
             descs.append(desc)
         if r.random() < 0.06:
-            add({"op": "bloatlogs"}, kind="change", desc=("bloatlogs", ""))       # same records, many times over: due for recompaction
+            add({"op": "bloatlogs", "big": r.random() < 0.4}, kind="change", desc=("bloatlogs", ""))       # same records, many times over: due for recompaction (big: beyond the 256 KiB the log is read through at a time)
         x = r.random()
         b = g.build_step(cur)
         if allow_faults and x < 0.15:
@@ -517,7 +517,7 @@ def make_late_deps_history(g, sc):
     add(x, kind="build", changes=[("add_deps", [q["id"] for q in gsts])])
     add(dict(x, sched={"mode": "prng", "seed": r.randint(1, 10 ** 6)}), kind="rebuild")
     for _ in range(r.randint(1, 2)):
-        add({"op": "bloatlogs"}, kind="change", desc=("bloatlogs", ""))
+        add({"op": "bloatlogs", "big": r.random() < 0.5}, kind="change", desc=("bloatlogs", ""))
         y = b()
         add(y, kind="rebuild")            # nothing changed: the run that recompacts must do nothing else
         add(dict(y, sched={"mode": "prng", "seed": r.randint(1, 10 ** 6)}), kind="rebuild")
